@@ -39,11 +39,23 @@
    Below, left = premise in sys (file), right = theorem of THIS file about the select machine
    (sel/Select.v: `step` = one execution of the Select instruction; a slice that parks ends with
    such an entry, so "the slice parks" = "p_queued st' = false, p_error st' = None after an
-   entry of a runnable live process"; `step_action` = the Action the slice returns).
+   entry of a runnable live process"; `step_action` = the Action the slice returns;
+   `p_unreported` = Process.unreported_awaits, emptied by EReport = notify_await_report and by a
+   stored result; theorems about a PASS over the sources carry `p_unreported st = []`).
 
-   sys/ProtoParked.v  park_honest d mail', clause 1 (d_park = true -> every cursor of d_sel = |mail'|),
-     hence honest_step / honest_run, used by C04 parked_has_no_unseen_message
-        <-  C05_parks_only_after_full_scan          (all cursors = |mailbox|, start time set)
+   sys/ProtoParked.v  park_honest d mail', clause 1 (d_park = true -> sl_start <> None -> every cursor
+     of d_sel = |mail'|; conditional on the start time since /repo 8388832, F72: a select woken
+     before every awaited process was reported parks again with the start time unset and its
+     cursors untouched), hence honest_step / honest_run, used by C04 parked_has_no_unseen_message
+        <-  C05_parked_started_select_is_fully_scanned  (the clause as sys states it: ANY parking entry,
+                                                     start time set -> all cursors = |mailbox|)
+            C05_parks_only_after_full_scan          (a pass over the sources — every awaited process
+                                                     reported — parks with all cursors = |mailbox|
+                                                     and the start time set)
+            C05_reparks_until_all_reported          (the other parking entry of a live select: some
+                                                     awaited process unreported -> parks again, nothing
+                                                     evaluated, start time and `receiving` unset)
+            C05_completes_only_after_all_reported   (F72 itself: no completion before every report)
             C05_never_parks_with_acceptable_message (in the machine's own terms: no message of the
                                                      mailbox is acceptable to any receive source;
                                                      also C05_parks_only_when_spec_waits above)
@@ -131,6 +143,7 @@ Theorem C05_parks_only_when_spec_waits :
     run fix45 verdict_of written evs (initial mb0 aw0) = Val st ->
     step fix45 verdict_of written now st = Val st' ->
     active now st s ->
+    p_unreported st = [] ->
     p_queued st' = false ->
     p_error st' = None ->
     select_spec verdict_of written (p_mailbox st) (p_awaiting st) (start_of s now) now = Wait.
@@ -147,6 +160,7 @@ Theorem C05_fails_only_when_spec_fails :
     run fix45 verdict_of written evs (initial mb0 aw0) = Val st ->
     step fix45 verdict_of written now st = Val st' ->
     active now st s ->
+    p_unreported st = [] ->
     p_error st' = Some (PErr e) ->
     (exists (r : nat) (m : msg), ss_receiving s = Some (r, m) /\ verdict_of r m = VdErr e) \/
     select_spec verdict_of written (p_mailbox st) (p_awaiting st) (start_of s now) now = Fail e.
@@ -163,6 +177,7 @@ Theorem C05_failing_filter_called_only_when_spec_fails :
     run fix45 verdict_of written evs (initial mb0 aw0) = Val st ->
     step fix45 verdict_of written now st = Val st' ->
     active now st s ->
+    p_unreported st = [] ->
     (forall (r0 : nat) (m0 : msg) (e0 : err),
        ss_receiving s = Some (r0, m0) -> verdict_of r0 m0 <> VdErr e0) ->
     p_error st' = None ->
@@ -290,6 +305,7 @@ Theorem C05_parks_only_after_full_scan :
     run fix45 verdict_of written evs (initial mb0 aw0) = Val st ->
     step fix45 verdict_of written now st = Val st' ->
     active now st s ->
+    p_unreported st = [] ->
     p_queued st' = false ->
     p_error st' = None ->
     exists s' : sel_state,
@@ -308,6 +324,7 @@ Theorem C05_never_parks_with_acceptable_message :
     run fix45 verdict_of written evs (initial mb0 aw0) = Val st ->
     step fix45 verdict_of written now st = Val st' ->
     active now st s ->
+    p_unreported st = [] ->
     p_queued st' = false ->
     p_error st' = None ->
     forall (r : nat) (c : list nat) (t : bool),
@@ -334,7 +351,8 @@ Theorem C05_await_slice_has_not_started :
        ss_sources s' = written /\
        ss_receiving s' = None /\
        p_awaiting st' =
-       fold_left (fun (aw : list (pid * option value)) (p : pid) => aw_insert p None aw) ts (p_awaiting st)).
+       fold_left (fun (aw : list (pid * option value)) (p : pid) => aw_insert p None aw) ts (p_awaiting st) /\
+       p_unreported st' = ts).
 Proof. exact await_slice_has_not_started. Qed.
 Print Assumptions C05_await_slice_has_not_started.
 
@@ -426,3 +444,48 @@ Theorem C05_await_slice_leaves_only_its_targets :
     forall p : pid, aw_has p (p_awaiting st') = true -> In p ts.
 Proof. exact await_slice_leaves_only_its_targets. Qed.
 Print Assumptions C05_await_slice_leaves_only_its_targets.
+
+(* ================================================================================================
+   /repo 8388832 (F72): no evaluation before the await has reported every process source
+   ================================================================================================ *)
+
+(* a live select entered while some awaited process is still unreported parks again: the step
+   changes nothing but the scheduling flags; its start time and `receiving` slot are unset *)
+Theorem C05_reparks_until_all_reported :
+  forall (fix45 : bool) (verdict_of : nat -> msg -> verdict) (written : list source)
+         (mb0 : list msg) (aw0 : list (pid * option value)) (evs : list event)
+         (st : proc) (now : Z) (s : sel_state),
+    run fix45 verdict_of written evs (initial mb0 aw0) = Val st ->
+    active now st s ->
+    p_unreported st <> [] ->
+    step fix45 verdict_of written now st = Val (set_flags (check_expired now st) false true) /\
+    ss_start s = None /\ ss_receiving s = None.
+Proof. exact reparks_until_all_reported. Qed.
+Print Assumptions C05_reparks_until_all_reported.
+
+(* an entry completes the select only when every awaited process has been reported *)
+Theorem C05_completes_only_after_all_reported :
+  forall (fix45 : bool) (verdict_of : nat -> msg -> verdict) (written : list source)
+         (now : Z) (st st' : proc) (v : value),
+    step fix45 verdict_of written now st = Val st' ->
+    p_value st = None -> p_value st' = Some v -> p_unreported st = [].
+Proof. exact completes_only_after_all_reported. Qed.
+Print Assumptions C05_completes_only_after_all_reported.
+
+(* park_honest clause 1 as the protocol cone states it now: ANY entry that parks a runnable live
+   process, if it leaves the select with its start time set, leaves every cursor at the end of
+   the mailbox *)
+Theorem C05_parked_started_select_is_fully_scanned :
+  forall (fix45 : bool) (verdict_of : nat -> msg -> verdict) (written : list source)
+         (mb0 : list msg) (aw0 : list (pid * option value)) (evs : list event)
+         (st : proc) (now : Z) (st' : proc),
+    run fix45 verdict_of written evs (initial mb0 aw0) = Val st ->
+    step fix45 verdict_of written now st = Val st' ->
+    runs now st ->
+    p_queued st' = false ->
+    p_error st' = None ->
+    forall s' : sel_state,
+      p_sel st' = Some s' ->
+      ss_start s' <> None -> Forall (fun c : nat => c = length (p_mailbox st')) (ss_cursors s').
+Proof. exact parked_started_select_is_fully_scanned. Qed.
+Print Assumptions C05_parked_started_select_is_fully_scanned.
